@@ -74,8 +74,14 @@ type panicToken struct{ id int }
 
 func opName(op []any) string { return op[0].(string) }
 func opInt(op []any, i int) int {
-	f, _ := op[i].(float64)
-	return int(f)
+	switch x := op[i].(type) {
+	case float64:
+		return int(x)
+	case int:
+		return x
+	}
+	fatal("op %v: argument %d is not a number", op, i)
+	return 0
 }
 
 // mkHandler turns a script into a rux handler; h is the 1-based position in the chain (0 = hook / OnError).
@@ -279,6 +285,10 @@ func chainRunOnce(s *Summary, c *chainCase, sp chainSplit) {
 	}
 	run := serve()
 	s.Compared++
+	if chainRunHook != nil { // recorder mode: hand the observation over, compare nothing
+		chainRunHook(run)
+		return
+	}
 	want := normLog(c.Log)
 	got := run.log
 	if tok, ok := run.panicV.(*panicToken); run.panicV != nil && !ok {
@@ -335,3 +345,98 @@ func chainRunOnce(s *Summary, c *chainCase, sp chainSplit) {
 		}
 	}
 }
+
+// ---- family "chainrec": random chains with arbitrary scripts, recorded for spec/trace/TraceChain.tla --------------
+
+func init() {
+	families["chainrec"] = &family{record: chainRecord}
+}
+
+func randScript(rng *rand.Rand, allowPanic bool) [][]any {
+	ops := [][]any{{"in"}}
+	n := rng.Intn(5)
+	for i := 0; i < n; i++ {
+		switch x := rng.Intn(20); {
+		case x < 7:
+			ops = append(ops, []any{"next"})
+		case x < 9:
+			ops = append(ops, []any{"abort"})
+		case x < 10:
+			ops = append(ops, []any{"abortStatus", []int{401, 403, 500}[rng.Intn(3)]})
+		case x < 12:
+			ops = append(ops, []any{"status", []int{0, -1, 201, 404, 500}[rng.Intn(5)]})
+		case x < 15:
+			ops = append(ops, []any{"write", rng.Intn(4), []string{"full", "full", "short", "err"}[rng.Intn(4)]})
+		case x < 16:
+			ops = append(ops, []any{"flush"})
+		case x < 17:
+			ops = append(ops, []any{"err"})
+		case x < 18:
+			ops = append(ops, []any{"httpError", 400 + rng.Intn(5), 2 + rng.Intn(4)})
+		case x < 19 && allowPanic:
+			ops = append(ops, []any{"panic"})
+		default:
+			ops = append(ops, []any{"in"})
+		}
+	}
+	return append(ops, []any{"out"})
+}
+
+func chainRecord(s *Summary, rng *rand.Rand, n int, out *traceWriter) {
+	for t := 0; t < n; t++ {
+		ln := 1 + rng.Intn(8)
+		if rng.Intn(4) == 0 {
+			ln = 1 + rng.Intn(63)
+		}
+		c := chainCase{Kind: []string{"route", "route", "notfound", "notallowed"}[rng.Intn(4)]}
+		panics := rng.Intn(3) == 0
+		for i := 0; i < ln; i++ {
+			sc := randScript(rng, panics)
+			if ln > 20 && rng.Intn(3) > 0 {
+				sc = [][]any{{"in"}, {"next"}, {"out"}}
+			}
+			c.Chain = append(c.Chain, sc)
+		}
+		if rng.Intn(2) == 0 {
+			c.OnError = [][]any{{"in"}, {"status", 500}, {"out"}}
+		}
+		if panics && rng.Intn(3) > 0 {
+			c.Hook = [][][]any{{{"in"}}, {{"in"}, {"status", 500}}, {{"in"}, {"status", 503}, {"write", 4, "full"}, {"out"}}}[rng.Intn(3)]
+		}
+		run := chainExecute(&c, randSplit(rng, ln-1))
+		if run == nil {
+			continue
+		}
+		opt := func(x [][]any) any {
+			if x == nil {
+				return [][]any{{"none"}}
+			}
+			return x
+		}
+		under := run.rw.calls
+		if under == nil {
+			under = [][]any{}
+		}
+		lg := run.log
+		if lg == nil {
+			lg = [][]any{}
+		}
+		out.emit(map[string]any{"chain": c.Chain, "onerror": opt(c.OnError), "hook": opt(c.Hook), "kind": c.Kind, "n": ln,
+			"log": lg, "under": under, "escaped": run.panicV != nil})
+		s.Cases++
+	}
+}
+
+// chainExecute registers the chain and serves one request (shared with the replay); nil if registration panicked
+func chainExecute(c *chainCase, sp chainSplit) *chainRun {
+	tmp := &Summary{Mismatches: []Mismatch{}}
+	var got *chainRun
+	chainRunHook = func(r *chainRun) { got = r }
+	defer func() { chainRunHook = nil }()
+	cc := *c
+	cc.Log, cc.Under, cc.Escaped, cc.CheckW = nil, nil, nil, false
+	chainRunOnce(tmp, &cc, sp)
+	return got
+}
+
+var chainRunHook func(*chainRun)
